@@ -30,10 +30,13 @@
 (*              controls; CNOT CX CY CZ CRX CRY CRZ CPHASE with >= 1 control *)
 (*              ("controls" is a list in the IonQ JSON schema).              *)
 (*   projectq : H X Y Z S T Rx Ry Rz R(phase) Measure; CX with exactly one   *)
-(*              control, written from a Tangelo CNOT.  A Tangelo gate named  *)
-(*              CX (the alias) is OPTIONAL: the format can express it, the   *)
-(*              translator's dictionary does not list it - refusing it or   *)
-(*              round-tripping it are both conformant.                       *)
+(*              control, from a Tangelo CNOT or its documented alias CX      *)
+(*              (Gate.__eq__: "CNOT and CX gates are equivalent"; the IonQ   *)
+(*              importer itself names the gate CX, so a direct IonQ ->       *)
+(*              ProjectQ conversion needs it).                               *)
+(*   cirq, sympy (targets of direct conversions only): get_cirq_gates lists  *)
+(*              the whole alphabet; get_sympy_gates everything but XX,       *)
+(*              CSWAP, MEASURE.                                              *)
 (*   openqasm : the subset get_openqasm_gates documents: h x y z s t rx ry  *)
 (*              rz p measure swap; cx cy cz crz cp cswap with one control.   *)
 (* Everything else is unsupported: the exporter must refuse (raise).         *)
@@ -73,15 +76,24 @@ GateClass(g, fmt) ==
          THEN "supported" ELSE "unsupported"
     [] fmt = "projectq" ->
          IF \/ (g.name \in Plain1 \cup Param1 \cup {"MEASURE"} /\ g.c = <<>>)
-            \/ (g.name = "CNOT" /\ Len(g.c) = 1)
-         THEN "supported"
-         ELSE IF g.name = "CX" /\ Len(g.c) = 1 THEN "optional" ELSE "unsupported"
+            \/ (g.name \in {"CNOT", "CX"} /\ Len(g.c) = 1)
+         THEN "supported" ELSE "unsupported"
+    [] fmt = "cirq" -> "supported"                                    \* get_cirq_gates lists the whole alphabet
+    [] fmt = "sympy" ->
+         IF \/ (g.name \in Plain1 \cup Param1 \cup {"SWAP"} /\ g.c = <<>>)
+            \/ (g.name \in Ctrl0 \cup CtrlP /\ Len(g.c) >= 1)
+         THEN "supported" ELSE "unsupported"
     [] fmt = "openqasm" ->
          IF \/ (g.name \in Plain1 \cup Param1 \cup {"MEASURE", "SWAP"} /\ g.c = <<>>)
             \/ (g.name \in {"CNOT", "CY", "CZ", "CRZ", "CPHASE", "CSWAP"} /\ Len(g.c) = 1)
          THEN "supported"
          ELSE IF g.name = "CX" /\ Len(g.c) = 1 THEN "optional" ELSE "unsupported"
     [] OTHER -> "unsupported"
+
+\* Python type of a document of each format, as reported by the driver
+ExpectedType(fmt) == CASE fmt = "ionq" -> "dict" [] fmt = "projectq" -> "str" [] fmt = "openqasm" -> "str"
+                       [] fmt = "cirq" -> "cirq" [] fmt = "sympy" -> "sympy" [] OTHER -> "?"
+OneWay == {"cirq", "sympy"}         \* formats Tangelo can write but not read
 
 CircClass(gates, fmt) ==
   IF \E i \in 1..Len(gates) : GateClass(gates[i], fmt) = "unsupported" THEN "unsupported"
